@@ -45,7 +45,12 @@ Inductive case :=
 | CRoute (p : bytes) (vals : list bytes) (req : bytes) (found : bool) (params : list (bytes * bytes))
 (* all strings prefix ++ x, lo <= |x| <= hi over the alphabet, in enumeration order, under the
    16 limit pairs: digest of the observations (with error kinds / erased to accept-reject) *)
-| CBlock (prefix : bytes) (lo hi : nat) (dfull derased : N).
+| CBlock (prefix : bytes) (lo hi : nat) (dfull derased : N)
+(* a pattern too long to be sent or run through the model (unary indexes make the model quadratic):
+   a well-formed unit such as "/{a}" repeated, containing `wilds` wildcards in all (counted by the
+   harness), validated under maxParams = mp (key limit 65535).  The model's verdict is not computed
+   but taken from Props_C10.accepted_within_limit (accepted -> n = number of wildcards <= mp). *)
+| CCount (wilds mp : N) (o : obs) (agree : bool).
 
 (* ---------- model side ---------- *)
 Definition model_obs (mp mk : nat) (p : bytes) : option obs :=
@@ -142,6 +147,12 @@ Definition model_agrees (c : case) : bool :=
     opt_eqb (opt_eqb (list_eqb wtuple_eqb)) (model_wild key) (Some o)
   | CRoute _ _ _ _ _ => true
   | CBlock prefix lo hi dfull _ => N.eqb (fst (fst (block_digests prefix lo hi))) dfull
+  | CCount wilds mp o agree =>
+    agree && match o with
+             | OA n _ => N.eqb n wilds && (wilds <=? mp)%N
+             | OR k => N.eqb k 19 && (mp <? wilds)%N       (* ETooManyParams *)
+             | OP => false
+             end
   end.
 
 Definition spec_ok_with (hb : ascii -> bool) (c : case) : bool :=
@@ -157,6 +168,12 @@ Definition spec_ok_with (hb : ascii -> bool) (c : case) : bool :=
     end
   | CRoute p vals req found params => route_ok_with hb p vals req found params
   | CBlock prefix lo hi _ derased => N.eqb (snd (fst (block_digests prefix lo hi))) derased
+  | CCount wilds mp o _ =>
+    match o with
+    | OA n _ => N.eqb n wilds && (wilds <=? mp)%N     (* the configured limit on the parameter count *)
+    | OR _ => (mp <? wilds)%N                         (* the unit is well formed: only the count can be wrong *)
+    | OP => false
+    end
   end.
 (* the specification: hostname labels are LDH *)
 Definition spec_ok := spec_ok_with ldh.
@@ -176,6 +193,7 @@ Definition out_of_fuel (c : case) : bool :=
   | CWild key _ => match model_wild key with None => true | _ => false end
   | CRoute _ _ _ _ _ => false
   | CBlock prefix lo hi _ _ => snd (block_digests prefix lo hi)
+  | CCount _ _ _ _ => false
   end.
 
 (* evaluated once per case by the case files: the model is run once per (case, limit pair) *)
